@@ -329,6 +329,7 @@ impl Prop for C20 {
     fn oracle(&self, l: &str, reply: &str) -> Result<(), String> {
         if reply == "bad-op" { return Ok(()); }
         if reply == "panic" { return Err("timer panics".into()); }
+        if reply.contains("-BAD@") { return Err(format!("Timer::is_running disagrees with the start / stop calls made: {}", reply.rsplit(' ').next().unwrap_or(""))); }
         let w: Vec<&str> = l.split(' ').collect();
         let i: u64 = w[1].parse::<u64>().map_err(|_| "i")? * 1000;
         let ops = parse_ops(w[2]).ok_or("ops")?;
